@@ -25,6 +25,8 @@ NAMINGS = {
     'distinct': {k: k for k in U},
     'dup-F-S2': dict({k: k for k in U}, F='dup', S2='dup'),
     'dup-Wg-Ww': dict({k: k for k in U}, Wg='twin', Ww='twin'),
+    # pairwise different strings that any normalisation (strip, case folding, unicode composition) would merge: no two share a name
+    'near-miss': {'M': 'drive', 'F': 'drive ', 'S1': ' drive', 'S2': 'Drive', 'Wg': 'dr\u00edve', 'Ww': 'dri\u0301ve'},
 }
 
 
